@@ -482,6 +482,24 @@ func c17(c *ctx) {
 			f := ws.MaskFrameWith(ws.NewBinaryFrame(p), [4]byte{9, 8, 7, 6})
 			ws.WriteFrame(d, f)
 		})
+		// (a frame that is not masked: the copying variants copy all the same - what the caller does to the
+		// returned payload stays its own business)
+		writeCase(fmt.Sprintf("write/UnmaskFrame.plain/%d", sz), "UnmaskFrame.plain", sz, func(p []byte, d io.Writer) {
+			g := ws.UnmaskFrame(ws.NewBinaryFrame(p))
+			for i := range g.Payload {
+				g.Payload[i] ^= 0x5a
+			}
+			d.Write(g.Payload)
+		})
+		writeCase(fmt.Sprintf("write/MaskFrame.masked/%d", sz), "MaskFrame.masked", sz, func(p []byte, d io.Writer) {
+			f := ws.NewBinaryFrame(p)
+			f.Header.Masked, f.Header.Mask = true, [4]byte{0, 0, 0, 0}
+			g := ws.MaskFrameWith(f, [4]byte{1, 1, 1, 1})
+			for i := range g.Payload {
+				g.Payload[i] ^= 0x33
+			}
+			d.Write(g.Payload)
+		})
 		writeCase(fmt.Sprintf("write/UnmaskFrame/%d", sz), "UnmaskFrame", sz, func(p []byte, d io.Writer) {
 			f := ws.NewBinaryFrame(p)
 			f.Header.Masked, f.Header.Mask = true, [4]byte{4, 3, 2, 1}
